@@ -109,6 +109,10 @@ def ensure_facts(repo=REPO, verbose=True):
         os.makedirs(tmp)
         target = os.path.join(CACHE, "target")
         fp = os.path.join(target, "debug", ".fingerprint")
+        # the shared dependency cache is used by one extraction at a time (deleting the members'
+        # fingerprints while another cargo run writes them would corrupt that run)
+        tlock = open(os.path.join(CACHE, "target.lock"), "w")
+        fcntl.flock(tlock, fcntl.LOCK_EX)
         if os.path.isdir(fp):
             for n in os.listdir(fp):
                 if n.startswith(("celestia-", "lumina-")):
@@ -130,6 +134,7 @@ def ensure_facts(repo=REPO, verbose=True):
         if verbose:
             print("[facts] extracting MIR facts from %s ..." % repo, file=sys.stderr)
         r = subprocess.run(cmd, cwd=repo, env=env, stdout=subprocess.PIPE, stderr=subprocess.STDOUT, text=True)
+        tlock.close()
         if r.returncode != 0:
             raise BuildError("cargo check of %s failed:\n%s" % (repo, r.stdout[-6000:]))
         missing = [c for c in CRATES if not os.path.exists(os.path.join(tmp, c + ".bodies.jsonl"))]
